@@ -65,9 +65,12 @@ NON_MAG = [t for t in TYPES if t not in MAG_TYPES]
 
 def kin_data(rng, n, good_fit):
     kw = kin_kw(rng, n)
-    if good_fit:   # measurement within a few per cent of the prediction at the test cosmology (lnL of order -10)
-        cosmo0()
-        pred = np.sqrt(np.array(kw["j_model"]) * _cosmo["ds"] / _cosmo["dds"]) * C_KMS
+    if good_fit:   # self-consistent data: prediction 200-300 km/s, 12 km/s measurement and ~5 km/s model error, measurement
+        cosmo0()   # within 2% of the prediction at the test cosmology (lnL of order -10, no heavy-tailed per-draw likelihood)
+        r = _cosmo["ds"] / _cosmo["dds"]
+        kw["j_model"] = list((rng.uniform(200, 300, n) / C_KMS) ** 2 / r)
+        kw["error_cov_j_sqrt"] = pd(rng, n, 5.0 / (C_KMS * np.sqrt(r)))
+        pred = np.sqrt(np.array(kw["j_model"]) * r) * C_KMS
         kw["sigma_v_measurement"] = list(pred * (1 + rng.normal(0, 0.02, n)))
     return kw
 
@@ -131,6 +134,7 @@ def make_case(inp):
     elif c in ("a_ani_sigma/kin", "beta_inf_sigma/GOM", "joint/kin"):
         model = "GOM" if c == "beta_inf_sigma/GOM" else ["OM", "const", "GOM"][int(rng.integers(3))]
         dist = ["GAUSSIAN", "GAUSSIAN_SCALED"][int(rng.integers(2))] if model != "const" else "GAUSSIAN"
+        if inp.get("aniso_dist"): model, dist = "OM", inp["aniso_dist"]
         names = ["a_ani", "beta_inf"] if model == "GOM" else ["a_ani"]
         data(t, anisotropy_model=model, anisotropy_sampling=True, anisotropy_distribution=dist, **grid_for(rng, names, nk))
         kk = dict(a_ani=float(rng.uniform(1.5, 3.5)), a_ani_sigma=0.0)
@@ -198,7 +202,9 @@ def make_case(inp):
     else:
         raise ValueError(c)
     if inp.get("prior"):
-        lens["prior_list"] = [["lambda_mst", 1.0, 0.05], ["a_ani", 2.5, 0.5]]
+        # per-lens priors act on the DRAWN values: a prior on a_ani/lambda_mst would make their scatter applicable, so
+        # the inapplicable / holds cases only get a prior on a parameter that is never drawn
+        lens["prior_list"] = [["lambda_mst", 1.0, 0.05], ["a_ani", 2.5, 0.5]] if c in APPLICABLE else [["gamma_ppn", 0.9, 0.3]]
     return dict(lens=lens, hyper=dict(kwargs_lens=kl, kwargs_kin=kk, kwargs_source=ks, kwargs_los=klos), sig=sig)
 
 
@@ -218,10 +224,10 @@ class Probe(object):
         od, op = ll._lens_type.log_likelihood, ll._prior.log_likelihood
 
         def fd(*a, **k):
-            v = od(*a, **k); self.data.append(v); return v
+            v = od(*a, **k); self.data.append(np.array(v, dtype=float, copy=True)); return v   # copy: the caller does `+= prior` in place
 
         def fp(*a, **k):
-            v = op(*a, **k); self.prior.append(v); return v
+            v = op(*a, **k); self.prior.append(np.array(v, dtype=float, copy=True)); return v
         ll._lens_type.log_likelihood = fd; ll._prior.log_likelihood = fp
 
     def run(self, hyper, seed):
@@ -400,21 +406,23 @@ def run_reference(rec, inp):
 
 
 def run_error_scaling(rec, inp):
-    """Var over seeds of the estimator L_hat at N and 4N: ratio 4 (1/sqrt(N)).  R=300 repeats: the ratio of two sample
-    variances has a relative sd of ~sqrt(2/R)*sqrt(2)=0.115 -> band [2.4, 6.5] is > 4 sigma wide."""
+    """Var over seeds of the estimator L_hat at N and 4N: ratio 4 (1/sqrt(N)).  Data centred on the prediction (no
+    heavy tail); R=400 repeats: empirically (40 trials of R=300) the ratio is 4.0 +- 0.42, i.e. +-0.36 at R=400:
+    the band [2.3, 6.5] is > 4.5 sigma wide."""
     from hierarc.Likelihood.hierarchy_likelihood import LensLikelihood
     rec.case(inp, kind="error_scaling")
-    R = 300; out = {}
+    R = 400; out = {}
+    cosmo0(); ddt = _cosmo["ddt"]
     for N in (inp["N_arg"], 4 * inp["N_arg"]):
-        ll = LensLikelihood(z_lens=ZL, z_source=ZS, likelihood_type="DdtGaussian", ddt_mean=4100., ddt_sigma=250., lambda_mst_distribution="GAUSSIAN", num_distribution_draws=N)
+        ll = LensLikelihood(z_lens=ZL, z_source=ZS, likelihood_type="DdtGaussian", ddt_mean=ddt, ddt_sigma=0.06 * ddt, lambda_mst_distribution="GAUSSIAN", num_distribution_draws=N)
         vals = []
         for r in range(R):
-            np.random.seed(inp["seeds"][0] + r)
+            np.random.seed(inp["seeds"][0] + r + 7919 * N)
             vals.append(np.exp(fscalar(ll.lens_log_likelihood(cosmo0(), kwargs_lens=dict(lambda_mst=1.0, lambda_mst_sigma=0.05)))))
         out[N] = (np.var(vals, ddof=1), np.mean(vals))
     N = inp["N_arg"]
     ratio = out[N][0] / out[4 * N][0]
-    rec.check(2.4 <= ratio <= 6.5, "C04:error_scaling", "Var(L_hat) at N over Var at 4N must be ~4", inp, dict(ratio=ratio, means=[out[N][1], out[4 * N][1]]), "2.4..6.5")
+    rec.check(2.3 <= ratio <= 6.5, "C04:error_scaling", "Var(L_hat) at N over Var at 4N must be ~4", inp, dict(ratio=ratio, means=[out[N][1], out[4 * N][1]]), "2.3..6.5")
     # both means estimate the same integral: difference within 5 standard errors
     rec.check(abs(out[N][1] - out[4 * N][1]) <= 5 * np.sqrt(out[N][0] / R + out[4 * N][0] / R), "C04:reference_integral:error_scaling",
               "means at N and 4N estimate the same integral (unbiased for every N)", inp, [out[N][1], out[4 * N][1]], "equal within 5 se")
@@ -455,7 +463,7 @@ def main():
         else: rec.guard(run_case, rec, inp)
         rec.write(args.out); return
     rng = rng_of(args.seed, 4)
-    t0 = time.time(); budget = 30 if args.tier == "quick" else 320
+    t0 = time.time(); budget = 24 if args.tier == "quick" else 300
     allc = APPLICABLE + INAPPLICABLE + KNOWN_IFU + HOLDS
     # regression witness: DdtDdKDE with a line-of-sight draw
     rec.guard(run_case, rec, gen(rng, "los_global_sigma/GAUSSIAN", t="DdtDdKDE", N=5))
@@ -464,17 +472,18 @@ def main():
         rec.guard(run_case, rec, gen(rng, c, t="IFUKinCov", N=37))
     # population integral
     refs = [("lambda_mst_sigma/nonIFU", "DdtGaussian"), ("lambda_ifu_sigma/IFU", "DdtGaussian"), ("los_global_sigma/GAUSSIAN", "DdtGaussian"),
-            ("a_ani_sigma/kin", "IFUKinCov"), ("gamma_in_sigma/kin", "IFUKinCov"), ("log_m2l_sigma/kin", "IFUKinCov"), ("gamma_pl_sigma/global/kin", "IFUKinCov"),
+            ("a_ani_sigma/kin", "IFUKinCov", "GAUSSIAN"), ("a_ani_sigma/kin", "DdtGaussKin", "GAUSSIAN_SCALED"), ("gamma_in_sigma/kin", "IFUKinCov"), ("log_m2l_sigma/kin", "IFUKinCov"), ("gamma_pl_sigma/global/kin", "IFUKinCov"),
             ("sigma_sne/mag", "Mag"), ("beta_inf_sigma/GOM", "IFUKinCov"), ("gamma_pl_sigma/global/DSPL", "DSPL"), ("lambda_mst_sigma/nonIFU", "DdtLogNorm"),
             ("sigma_sne/mag", "TDMag")]
-    nref = 6 if args.tier == "quick" else len(refs) * 3
+    nref = len(refs) if args.tier == "quick" else len(refs) * 4
     order = rng.permutation(len(refs))
     for k in range(nref):
-        c, t = refs[order[k % len(refs)]]
-        rec.guard(run_reference, rec, gen(rng, c, t=t, N=4000, good_fit=True, mode="reference", prior=False))
+        rf = refs[order[k % len(refs)]]
+        more = dict(aniso_dist=rf[2]) if len(rf) > 2 else {}
+        rec.guard(run_reference, rec, gen(rng, rf[0], t=rf[1], N=4000, good_fit=True, mode="reference", prior=False, **more))
     rec.guard(run_error_scaling, rec, dict(N_arg=10, seeds=[int(rng.integers(2 ** 30))], mode="error_scaling"))
     # the matrix
-    rounds = 2 if args.tier == "quick" else 60
+    rounds = 14 if args.tier == "quick" else 400   # until the time budget
     for r in range(rounds):
         for c in allc:
             ts = types_for(c)
